@@ -327,3 +327,7 @@ mod tests {
         }
     }
 }
+
+#[cfg(kani)]
+#[path = "/verif/kani/arrow-buffer/bytes.rs"]
+mod verif_kani;
